@@ -85,6 +85,8 @@ VARIABLES
   \* ---- transports
   lsnOpen, pend,          \* tcp listeners: open?, accept queue
   pcOpen, pcDL, pin,      \* the packet conn: open?, read deadline, packets waiting
+  pcWDL,                  \* ... its write deadline
+  wdl,                    \* connection c: write deadline ("none" | "future" | "past")
   \* ---- starter / serve loop p
   spc, sgen, sres, wg, scur, serr, slsn, sbad,
   \* ---- connection worker c
@@ -99,9 +101,9 @@ VARIABLES
   replyLost, crashed, act
 
 fields  == <<started, lock, gen, closed, conns, lsnField, cfgBad, pcField>>
-transp  == <<lsnOpen, pend, pcOpen, pcDL, pin>>
+transp  == <<lsnOpen, pend, pcOpen, pcDL, pcWDL, pin>>
 svars   == <<spc, sgen, sres, wg, scur, serr, slsn, sbad>>
-wvars   == <<wpc, wown, dl, copen, hrep, hclosed, hij>>
+wvars   == <<wpc, wown, dl, wdl, copen, hrep, hclosed, hij>>
 kvars   == <<kpc, kown, nread>>
 shvars  == <<shpc, shres, shgen, capt, kick, shseen, shtodo>>
 cvars   == <<cst, csent, inbox, psent>>
@@ -122,11 +124,11 @@ Init ==
   /\ cfgBad = FALSE
   /\ pcField = (Mode = "pc")                        \* srv.PacketConn # nil
   /\ lsnOpen = [l \in Lsn |-> TRUE] /\ pend = [l \in Lsn |-> {}]
-  /\ pcOpen = TRUE /\ pcDL = "none" /\ pin = 0
+  /\ pcOpen = TRUE /\ pcDL = "none" /\ pcWDL = "none" /\ pin = 0
   /\ spc = [p \in P |-> "idle"] /\ sgen = [p \in P |-> 0] /\ sres = [p \in P |-> "-"]
   /\ wg = [p \in P |-> 0] /\ scur = [p \in P |-> 0] /\ serr = [p \in P |-> "-"] /\ slsn = [p \in P |-> 0]
   /\ sbad = [p \in P |-> FALSE]
-  /\ wpc = [c \in C |-> "none"] /\ wown = [c \in C |-> 0] /\ dl = [c \in C |-> "none"]
+  /\ wpc = [c \in C |-> "none"] /\ wown = [c \in C |-> 0] /\ dl = [c \in C |-> "none"] /\ wdl = [c \in C |-> "none"]
   /\ copen = [c \in C |-> TRUE] /\ hrep = [c \in C |-> FALSE] /\ hclosed = [c \in C |-> FALSE] /\ hij = [c \in C |-> FALSE]
   /\ kpc = [k \in K |-> "none"] /\ kown = [k \in K |-> 0] /\ nread = 0
   /\ shpc = [h \in H |-> "idle"] /\ shres = [h \in H |-> "-"] /\ shgen = [h \in H |-> 0]
@@ -210,7 +212,7 @@ SAcceptOk(p) ==                   \* l.Accept() returns a connection
        /\ scur' = [scur EXCEPT ![p] = c]
        /\ L(<<"SAcceptOk", p, c>>)
   /\ spc' = [spc EXCEPT ![p] = "got"]
-  /\ UNCHANGED <<fields, lsnOpen, pcOpen, pcDL, pin, sgen, sres, wg, serr, slsn, sbad, wvars, kvars, shvars, cvars, hist>>
+  /\ UNCHANGED <<fields, lsnOpen, pcOpen, pcDL, pcWDL, pin, sgen, sres, wg, serr, slsn, sbad, wvars, kvars, shvars, cvars, hist>>
 
 SAcceptErr(p) ==                  \* l.Accept() fails: the listener is closed
   /\ Mode = "tcp" /\ spc[p] = "accept"
@@ -241,7 +243,7 @@ SRegister(p) ==                   \* lock; conns[rw] = {}; unlock; wg.Add(1); go
   /\ wg' = [wg EXCEPT ![p] = @ + 1]
   /\ scur' = [scur EXCEPT ![p] = 0]
   /\ spc' = [spc EXCEPT ![p] = "top"]
-  /\ UNCHANGED <<started, lock, gen, closed, lsnField, cfgBad, pcField, transp, sgen, sres, serr, slsn, sbad, dl, copen, hrep, hclosed, hij, kvars, shvars, cvars, hist>>
+  /\ UNCHANGED <<started, lock, gen, closed, lsnField, cfgBad, pcField, transp, sgen, sres, serr, slsn, sbad, dl, wdl, copen, hrep, hclosed, hij, kvars, shvars, cvars, hist>>
 
 \* broken variant "reg_after_spawn": the worker is spawned first, the connection registered afterwards
 SSpawnFirst(p) ==
@@ -252,7 +254,7 @@ SSpawnFirst(p) ==
        /\ L(<<"SSpawnFirst", p, c>>)
   /\ wg' = [wg EXCEPT ![p] = @ + 1]
   /\ spc' = [spc EXCEPT ![p] = "got2"]
-  /\ UNCHANGED <<fields, transp, sgen, sres, scur, serr, slsn, sbad, dl, copen, hrep, hclosed, hij, kvars, shvars, cvars, hist>>
+  /\ UNCHANGED <<fields, transp, sgen, sres, scur, serr, slsn, sbad, dl, wdl, copen, hrep, hclosed, hij, kvars, shvars, cvars, hist>>
 SRegLate(p) ==
   /\ spc[p] = "got2" /\ Free
   /\ conns' = conns \cup {scur[p]}
@@ -290,13 +292,13 @@ SReturn(p) ==                     \* defer l.Close(); deferred unlock() (a no-op
                       ELSE lock' = NoLock /\ UNCHANGED crashed
      ELSE UNCHANGED <<lock, crashed>>
   /\ spc' = [spc EXCEPT ![p] = "returned"]
-  /\ UNCHANGED <<started, gen, closed, conns, lsnField, cfgBad, pcField, pend, pcDL, pin, sgen, sres, wg, scur, serr, slsn, sbad, wvars, kvars, shvars, cvars, replyLost>>
+  /\ UNCHANGED <<started, gen, closed, conns, lsnField, cfgBad, pcField, pend, pcDL, pcWDL, pin, sgen, sres, wg, scur, serr, slsn, sbad, wvars, kvars, shvars, cvars, replyLost>>
   /\ L(<<"SReturn", p, sres[p]>>)
 
 \* ---- PacketConn / UDP serve loop
 URdl(p) ==                        \* readPacketConn/readUDP: RLock; if started {SetReadDeadline(future)}; RUnlock
   /\ Mode = "pc" /\ spc[p] = "rdl" /\ Free
-  /\ pcDL' = IF started \/ Bug = "dl_nocheck" THEN "future" ELSE pcDL
+  /\ pcDL' = (IF started \/ Bug = "dl_nocheck" THEN "future" ELSE pcDL) /\ UNCHANGED pcWDL
   /\ spc' = [spc EXCEPT ![p] = "read"]
   /\ UNCHANGED <<fields, lsnOpen, pend, pcOpen, pin, sgen, sres, wg, scur, serr, slsn, sbad, wvars, kvars, shvars, cvars, hist>>
   /\ L(<<"URdl", p, started>>)
@@ -308,7 +310,7 @@ UReadOk(p) ==                     \* ReadFrom returns a packet
   /\ nread' = nread + 1
   /\ scur' = [scur EXCEPT ![p] = nread + 1]
   /\ spc' = [spc EXCEPT ![p] = "got"]
-  /\ UNCHANGED <<fields, lsnOpen, pend, pcOpen, pcDL, sgen, sres, wg, serr, slsn, sbad, wvars, kpc, kown, shvars, cvars, hist>>
+  /\ UNCHANGED <<fields, lsnOpen, pend, pcOpen, pcDL, pcWDL, sgen, sres, wg, serr, slsn, sbad, wvars, kpc, kown, shvars, cvars, hist>>
   /\ L(<<"UReadOk", p, nread + 1>>)
 
 UReadErr(p) ==                    \* ReadFrom fails: deadline in the past (Temporary) or conn closed
@@ -336,18 +338,18 @@ USpawn(p) ==                      \* wg.Add(1); go serveUDPPacket
 WStart(c) ==
   /\ wpc[c] = "spawned"
   /\ wpc' = [wpc EXCEPT ![c] = "top"]
-  /\ UNCHANGED <<fields, transp, svars, wown, dl, copen, hrep, hclosed, hij, kvars, shvars, cvars, hist>>
+  /\ UNCHANGED <<fields, transp, svars, wown, dl, wdl, copen, hrep, hclosed, hij, kvars, shvars, cvars, hist>>
   /\ L(<<"WStart", c>>)
 
 WLoop(c) ==                       \* for ... && srv.isStarted()
   /\ wpc[c] = "top" /\ Free
   /\ wpc' = [wpc EXCEPT ![c] = IF started THEN "rdl" ELSE "close"]
-  /\ UNCHANGED <<fields, transp, svars, wown, dl, copen, hrep, hclosed, hij, kvars, shvars, cvars, hist>>
+  /\ UNCHANGED <<fields, transp, svars, wown, dl, wdl, copen, hrep, hclosed, hij, kvars, shvars, cvars, hist>>
   /\ L(<<"WLoop", c, started>>)
 
 WSetDeadline(c) ==                \* RLock; if srv.started {conn.SetReadDeadline(future)}; RUnlock
   /\ wpc[c] = "rdl" /\ Free
-  /\ dl' = [dl EXCEPT ![c] = IF started \/ Bug = "dl_nocheck" THEN "future" ELSE @]
+  /\ dl' = [dl EXCEPT ![c] = IF started \/ Bug = "dl_nocheck" THEN "future" ELSE @] /\ UNCHANGED wdl
   /\ wpc' = [wpc EXCEPT ![c] = "read"]
   /\ UNCHANGED <<fields, transp, svars, wown, copen, hrep, hclosed, hij, kvars, shvars, cvars, hist>>
   /\ L(<<"WSetDeadline", c, started>>)
@@ -356,60 +358,62 @@ WReadOk(c) ==
   /\ wpc[c] = "read" /\ copen[c] /\ dl[c] # "past" /\ inbox[c] > 0
   /\ inbox' = [inbox EXCEPT ![c] = @ - 1]
   /\ wpc' = [wpc EXCEPT ![c] = "have"]
-  /\ UNCHANGED <<fields, transp, svars, wown, dl, copen, hrep, hclosed, hij, kvars, shvars, cst, csent, psent, hist>>
+  /\ UNCHANGED <<fields, transp, svars, wown, dl, wdl, copen, hrep, hclosed, hij, kvars, shvars, cst, csent, psent, hist>>
   /\ L(<<"WReadOk", c>>)
 
 WReadTimeout(c) ==
   /\ wpc[c] = "read" /\ copen[c] /\ dl[c] = "past"
   /\ wpc' = [wpc EXCEPT ![c] = "close"]
-  /\ UNCHANGED <<fields, transp, svars, wown, dl, copen, hrep, hclosed, hij, kvars, shvars, cvars, hist>>
+  /\ UNCHANGED <<fields, transp, svars, wown, dl, wdl, copen, hrep, hclosed, hij, kvars, shvars, cvars, hist>>
   /\ L(<<"WReadTimeout", c>>)
 
 WReadEOF(c) ==                    \* peer closed (after its data was consumed), or our side is closed
   /\ wpc[c] = "read"
   /\ (cst[c] = "closed" /\ inbox[c] = 0) \/ ~copen[c]
   /\ wpc' = [wpc EXCEPT ![c] = "close"]
-  /\ UNCHANGED <<fields, transp, svars, wown, dl, copen, hrep, hclosed, hij, kvars, shvars, cvars, hist>>
+  /\ UNCHANGED <<fields, transp, svars, wown, dl, wdl, copen, hrep, hclosed, hij, kvars, shvars, cvars, hist>>
   /\ L(<<"WReadEOF", c>>)
 
 WHandlerEnter(c) ==               \* serveDNS -> srv.Handler.ServeDNS
   /\ wpc[c] = "have"
   /\ wpc' = [wpc EXCEPT ![c] = "inh"]
   /\ hrep' = [hrep EXCEPT ![c] = FALSE]
-  /\ UNCHANGED <<fields, transp, svars, wown, dl, copen, hclosed, hij, kvars, shvars, cvars, hist>>
+  /\ UNCHANGED <<fields, transp, svars, wown, dl, wdl, copen, hclosed, hij, kvars, shvars, cvars, hist>>
   /\ L(<<"WHandlerEnter", c>>)
 
 WReply(c) ==                      \* w.WriteMsg from the handler
   /\ wpc[c] = "inh" /\ ~hrep[c] /\ ~hclosed[c]
   /\ hrep' = [hrep EXCEPT ![c] = TRUE]
-  /\ replyLost' = (replyLost \/ (~copen[c] /\ cst[c] # "closed"))    \* the write fails although the client is there
-  /\ UNCHANGED <<fields, transp, svars, wpc, wown, dl, copen, hclosed, hij, kvars, shvars, cvars, crashed>>
-  /\ L(<<"WReply", c, copen[c] /\ cst[c] # "closed">>)
+  \* the write fails although the client is there: the connection was closed under the handler, or its write
+  \* deadline has come
+  /\ replyLost' = (replyLost \/ ((~copen[c] \/ wdl[c] = "past") /\ cst[c] # "closed"))
+  /\ UNCHANGED <<fields, transp, svars, wpc, wown, dl, wdl, copen, hclosed, hij, kvars, shvars, cvars, crashed>>
+  /\ L(<<"WReply", c, copen[c] /\ wdl[c] # "past" /\ cst[c] # "closed">>)
 
 WHClose(c) ==                     \* w.Close() from the handler
   /\ HandlerMayClose /\ wpc[c] = "inh" /\ ~hclosed[c]
   /\ hclosed' = [hclosed EXCEPT ![c] = TRUE]
   /\ copen' = [copen EXCEPT ![c] = FALSE]
-  /\ UNCHANGED <<fields, transp, svars, wpc, wown, dl, hrep, hij, kvars, shvars, cvars, hist>>
+  /\ UNCHANGED <<fields, transp, svars, wpc, wown, dl, wdl, hrep, hij, kvars, shvars, cvars, hist>>
   /\ L(<<"WHClose", c>>)
 
 WHijack(c) ==                     \* w.Hijack() from the handler: the server will neither read nor close the connection again
   /\ HandlerMayHijack /\ wpc[c] = "inh" /\ hrep[c] /\ ~hclosed[c] /\ ~hij[c]
   /\ hij' = [hij EXCEPT ![c] = TRUE]
-  /\ UNCHANGED <<fields, transp, svars, wpc, wown, dl, copen, hrep, hclosed, kvars, shvars, cvars, hist>>
+  /\ UNCHANGED <<fields, transp, svars, wpc, wown, dl, wdl, copen, hrep, hclosed, kvars, shvars, cvars, hist>>
   /\ L(<<"WHijack", c>>)
 
 WHandlerExit(c) ==
   /\ wpc[c] = "inh" /\ (hrep[c] \/ hclosed[c])
   /\ wpc' = [wpc EXCEPT ![c] = IF hclosed[c] \/ hij[c] THEN "closing" ELSE "top"]    \* if w.closed / w.hijacked {break}
-  /\ UNCHANGED <<fields, transp, svars, wown, dl, copen, hrep, hclosed, hij, kvars, shvars, cvars, hist>>
+  /\ UNCHANGED <<fields, transp, svars, wown, dl, wdl, copen, hrep, hclosed, hij, kvars, shvars, cvars, hist>>
   /\ L(<<"WHandlerExit", c>>)
 
 WClose(c) ==                      \* w.Close() after the loop
   /\ wpc[c] = "close"
   /\ copen' = [copen EXCEPT ![c] = FALSE]
   /\ wpc' = [wpc EXCEPT ![c] = "closing"]
-  /\ UNCHANGED <<fields, transp, svars, wown, dl, hrep, hclosed, hij, kvars, shvars, cvars, hist>>
+  /\ UNCHANGED <<fields, transp, svars, wown, dl, wdl, hrep, hclosed, hij, kvars, shvars, cvars, hist>>
   /\ L(<<"WClose", c>>)
 
 WUnreg(c) ==                      \* lock; delete(srv.conns, rw) -- the CURRENT map; unlock; wg.Done()
@@ -417,13 +421,13 @@ WUnreg(c) ==                      \* lock; delete(srv.conns, rw) -- the CURRENT 
   /\ conns' = IF Bug = "hijack_keeps_conn" /\ hij[c] THEN conns ELSE conns \ {c}   \* hijacked or not: untracked
   /\ wg' = [wg EXCEPT ![wown[c]] = @ - 1]
   /\ wpc' = [wpc EXCEPT ![c] = "done"]
-  /\ UNCHANGED <<started, lock, gen, closed, lsnField, cfgBad, pcField, transp, spc, sgen, sres, scur, serr, slsn, sbad, wown, dl, copen, hrep, hclosed, hij, kvars, shvars, cvars, hist>>
+  /\ UNCHANGED <<started, lock, gen, closed, lsnField, cfgBad, pcField, transp, spc, sgen, sres, scur, serr, slsn, sbad, wown, dl, wdl, copen, hrep, hclosed, hij, kvars, shvars, cvars, hist>>
   /\ L(<<"WUnreg", c>>)
 
 WExit(c) ==                       \* the goroutine is gone
   /\ wpc[c] = "done"
   /\ wpc' = [wpc EXCEPT ![c] = "gone"]
-  /\ UNCHANGED <<fields, transp, svars, wown, dl, copen, hrep, hclosed, hij, kvars, shvars, cvars, hist>>
+  /\ UNCHANGED <<fields, transp, svars, wown, dl, wdl, copen, hrep, hclosed, hij, kvars, shvars, cvars, hist>>
   /\ L(<<"WExit", c>>)
 
 -----------------------------------------------------------------------------
@@ -444,9 +448,9 @@ KEnter(k) ==
 KReply(k) ==                      \* WriteTo on the packet conn
   /\ kpc[k] = "inh"
   /\ kpc' = [kpc EXCEPT ![k] = "replied"]
-  /\ replyLost' = (replyLost \/ ~pcOpen)
+  /\ replyLost' = (replyLost \/ ~pcOpen \/ pcWDL = "past")
   /\ UNCHANGED <<fields, transp, svars, wvars, kown, nread, shvars, cvars, crashed>>
-  /\ L(<<"KReply", k, pcOpen>>)
+  /\ L(<<"KReply", k, pcOpen /\ pcWDL # "past">>)
 
 KExit(k) ==                       \* handler returns; wg.Done()
   /\ kpc[k] = "replied"
@@ -490,6 +494,7 @@ ShBegin(h) ==                     \* Lock; if !started {Unlock; return err}; sta
 ShKickPC(h) ==
   /\ shpc[h] = "closing" /\ "pc" \in shtodo[h]
   /\ pcDL' = IF Bug = "no_listener_close" /\ Mode = "pc" THEN pcDL ELSE "past"
+  /\ pcWDL' = IF Bug = "sh_write_deadline" THEN "future" ELSE pcWDL        \* see ShKick
   /\ shtodo' = [shtodo EXCEPT ![h] = @ \ {"pc"}]
   /\ shpc' = [shpc EXCEPT ![h] = IF shtodo[h] = {"pc"} THEN "kick" ELSE "closing"]
   /\ UNCHANGED <<fields, lsnOpen, pend, pcOpen, pin, svars, wvars, kvars, shres, shgen, capt, kick, shseen, cvars, hist>>
@@ -501,7 +506,7 @@ ShCloseL(h) ==
                  THEN lsnOpen ELSE [lsnOpen EXCEPT ![lsnField] = FALSE]
   /\ shtodo' = [shtodo EXCEPT ![h] = @ \ {"lsn"}]
   /\ shpc' = [shpc EXCEPT ![h] = IF shtodo[h] = {"lsn"} THEN "kick" ELSE "closing"]
-  /\ UNCHANGED <<fields, pend, pcOpen, pcDL, pin, svars, wvars, kvars, shres, shgen, capt, kick, shseen, cvars, hist>>
+  /\ UNCHANGED <<fields, pend, pcOpen, pcDL, pcWDL, pin, svars, wvars, kvars, shres, shgen, capt, kick, shseen, cvars, hist>>
   /\ L(<<"ShCloseL", h>>)
 
 ShKick(h, c) ==                   \* for rw := range srv.conns {rw.SetReadDeadline(aLongTimeAgo)}, lock held
@@ -510,6 +515,9 @@ ShKick(h, c) ==                   \* for rw := range srv.conns {rw.SetReadDeadli
   /\ IF Bug = "sh_closes_conns"
      THEN copen' = [copen EXCEPT ![c] = FALSE] /\ UNCHANGED dl
      ELSE dl' = [dl EXCEPT ![c] = "past"] /\ UNCHANGED copen
+  \* the walk touches READ deadlines only: a write deadline armed here ("so that a peer that stopped reading cannot
+  \* hold up the shutdown") comes while a handler the shutdown waits for has not answered yet -- broken variant
+  /\ wdl' = IF Bug = "sh_write_deadline" THEN [wdl EXCEPT ![c] = "future"] ELSE wdl
   /\ UNCHANGED <<fields, transp, svars, wpc, wown, hrep, hclosed, hij, kvars, shpc, shres, shgen, capt, shseen, shtodo, cvars, hist>>
   /\ L(<<"ShKick", h, c>>)
 
@@ -546,7 +554,7 @@ ShClosePC(h) ==                   \* if srv.PacketConn != nil {srv.PacketConn.Cl
   /\ shpc[h] = "after"
   /\ pcOpen' = FALSE
   /\ shpc' = [shpc EXCEPT ![h] = "returned"]
-  /\ UNCHANGED <<fields, lsnOpen, pend, pcDL, pin, svars, wvars, kvars, shres, shgen, capt, kick, shseen, shtodo, cvars, hist>>
+  /\ UNCHANGED <<fields, lsnOpen, pend, pcDL, pcWDL, pin, svars, wvars, kvars, shres, shgen, capt, kick, shseen, shtodo, cvars, hist>>
   /\ L(<<"ShClosePC", h>>)
 
 -----------------------------------------------------------------------------
@@ -557,7 +565,7 @@ CConnect(c, l) ==
   /\ lsnOpen[l]
   /\ pend' = [pend EXCEPT ![l] = @ \cup {c}]
   /\ cst' = [cst EXCEPT ![c] = "open"]
-  /\ UNCHANGED <<fields, lsnOpen, pcOpen, pcDL, pin, svars, wvars, kvars, shvars, csent, inbox, psent, hist>>
+  /\ UNCHANGED <<fields, lsnOpen, pcOpen, pcDL, pcWDL, pin, svars, wvars, kvars, shvars, csent, inbox, psent, hist>>
   /\ L(<<"CConnect", c, l>>)
 
 CSend(c) ==
@@ -577,20 +585,32 @@ CSendPkt ==
   /\ Mode = "pc" /\ psent < NPkts /\ pcOpen
   /\ psent' = psent + 1
   /\ pin' = pin + 1
-  /\ UNCHANGED <<fields, lsnOpen, pend, pcOpen, pcDL, svars, wvars, kvars, shvars, cst, csent, inbox, hist>>
+  /\ UNCHANGED <<fields, lsnOpen, pend, pcOpen, pcDL, pcWDL, svars, wvars, kvars, shvars, cst, csent, inbox, hist>>
   /\ L(<<"CSendPkt", psent + 1>>)
 
 TFire(c) ==                       \* time: the instant the read deadline of connection c names has come
   /\ DeadlinesMayFire /\ dl[c] = "future"
-  /\ dl' = [dl EXCEPT ![c] = "past"]
+  /\ dl' = [dl EXCEPT ![c] = "past"] /\ UNCHANGED wdl
   /\ UNCHANGED <<fields, transp, svars, wpc, wown, copen, hrep, hclosed, hij, kvars, shvars, cvars, hist>>
   /\ L(<<"TFire", c>>)
 
 TFirePC ==                        \* ... of the packet conn
   /\ DeadlinesMayFire /\ pcDL = "future"
-  /\ pcDL' = "past"
+  /\ pcDL' = "past" /\ UNCHANGED pcWDL
   /\ UNCHANGED <<fields, lsnOpen, pend, pcOpen, pin, svars, wvars, kvars, shvars, cvars, hist>>
   /\ L(<<"TFirePC">>)
+
+TFireW(c) ==                      \* time: the instant the WRITE deadline of connection c names has come; every later
+  /\ DeadlinesMayFire /\ wdl[c] = "future"          \* write fails and nothing goes out (WReply)
+  /\ wdl' = [wdl EXCEPT ![c] = "past"]
+  /\ UNCHANGED <<fields, transp, svars, wpc, wown, dl, copen, hrep, hclosed, hij, kvars, shvars, cvars, hist>>
+  /\ L(<<"TFireW", c>>)
+
+TFireWPC ==                       \* ... of the packet conn
+  /\ DeadlinesMayFire /\ pcWDL = "future"
+  /\ pcWDL' = "past"
+  /\ UNCHANGED <<fields, lsnOpen, pend, pcOpen, pcDL, pin, svars, wvars, kvars, shvars, cvars, hist>>
+  /\ L(<<"TFireWPC">>)
 
 HSetListener(l) ==                \* the harness assigns a fresh listener to srv.Listener (DEV3: only while not started,
   /\ Mode = "tcp" /\ l \in Lsn /\ l = lsnField + 1      \* and while no call is inside its critical section)
@@ -604,7 +624,7 @@ HSetListener(l) ==                \* the harness assigns a fresh listener to srv
 
 HSparePC ==                       \* srv.PacketConn := a packet conn nobody serves, on a running tcp server
   /\ SpareFields /\ Mode = "tcp" /\ ~pcField /\ started /\ Free
-  /\ pcField' = TRUE /\ pcOpen' = TRUE /\ pcDL' = "none"
+  /\ pcField' = TRUE /\ pcOpen' = TRUE /\ pcDL' = "none" /\ pcWDL' = "none"
   /\ UNCHANGED <<started, lock, gen, closed, conns, lsnField, cfgBad, lsnOpen, pend, pin, svars, wvars, kvars, shvars, cvars, hist>>
   /\ L(<<"HSparePC">>)
 
@@ -649,7 +669,7 @@ PacketStep(k)  == KStart(k) \/ KEnter(k) \/ KReply(k) \/ KExit(k) \/ KGone(k)
 ShutStep(h)    == ShBegin(h) \/ ShKickPC(h) \/ ShCloseL(h) \/ (\E c \in C : ShKick(h, c)) \/ ShUnlock(h) \/ ShCapture(h) \/ ShWake(h) \/ ShClosePC(h)
 ClientStep     == (\E c \in C : (\E l \in Lsn : CConnect(c, l)) \/ CSend(c) \/ CClose(c)) \/ CSendPkt
                   \/ (\E l \in Lsn : HSetListener(l) \/ HSpareLsn(l)) \/ HBreak \/ HFix \/ HSparePC \/ HClearPC
-                  \/ (\E c \in C : TFire(c)) \/ TFirePC
+                  \/ (\E c \in C : TFire(c)) \/ TFirePC \/ (\E c \in C : TFireW(c)) \/ TFireWPC
 
 Next == \/ \E p \in P : StarterStep(p) \/ ServeStep(p)
         \/ \E c \in C : WorkerStep(c)
